@@ -70,6 +70,41 @@ class SetMethod(Contract):
             isinstance(mm, ExternFn) and mm.self_obj is s.fields["model"] and mm.name == "estimator." + a._v)}
 
 
+@contract(SK + "sklearn_base_transform.py::SkBaseTransform.fit_transform", "C15")
+class FitTransform(Contract):
+    """the inherited fit_transform (what a Pipeline calls on a non-final step) is fit(X, y, **kwargs) followed by transform(X): the wrapped
+    model is trained exactly as a direct fit would - targets and extra fit arguments included, with or without targets"""
+    variants = [(hy, hk) for hy in (True, False) for hk in (True, False)]
+
+    def setup(self, E, v):
+        has_y, has_kw = v
+        n = E.size("n", 1)
+        d = dict(self=_learner(E, "predict"), X=E.nd("X", (n, E.size("d", 1))), y=E.nd("y", (n,)) if has_y else None)
+        if has_kw:
+            d["kwargs"] = {"sample_weight": E.nd("w", (n,))}
+        d["_kw"] = has_kw
+        return d
+
+    def old(self, E, a):
+        return dict(tl=len(E.trace))
+
+    def ensures(self, E, a, res, old, drop_kwargs=False):
+        m = a.self.fields["model"]
+        ev = [t for t in E.trace[old["tl"]:] if t["op"] in ("fit",) + tuple(ALLM) and t["obj"] is m]
+        ok = len(ev) == 2 and ev[0]["op"] == "fit" and ev[1]["op"] == "predict" and ev[0]["X"] is a.X and ev[1]["X"] is a.X
+        out = {"one_fit_then_one_call_of_the_chosen_method_on_X": z3.BoolVal(ok)}
+        if ok:
+            out["trained_on_the_targets_given_or_none"] = z3.BoolVal(ev[0]["y"] is a.y)
+            want_w = a.kwargs["sample_weight"] if (a._kw and not drop_kwargs) else None
+            out["extra_fit_arguments_passed_on"] = z3.BoolVal(ev[0]["w"] is want_w)
+            out["returns_the_output_of_the_model_trained_just_now"] = z3.BoolVal(
+                isinstance(res, NdArr) and res.ndim == 2 and z3.eq(ev[1]["state"], m.fields["$state"]) and z3.eq(ev[0]["post_state"], ev[1]["state"]))
+        return out
+
+    canaries = {"fit_arguments_dropped": lambda E, a, res, old: FitTransform().ensures(E, a, res, old, drop_kwargs=True).get(
+        "extra_fit_arguments_passed_on", z3.BoolVal(True)) if a._kw else z3.BoolVal(False)}
+
+
 @contract(SK + "sklearn_base_transform_learner.py::SkBaseTransformLearner.transform", "C15")
 @query_frame("self")
 class LearnerTransform(Contract):
